@@ -109,8 +109,8 @@ READS = ["qrow", "qindex"]
 WRITES = ["put", "delete"]
 
 
-def drv_cfg(K, nodes, place, ids, names, rtype="node"):
-    return json.dumps(dict(nodes=nodes, place=place, ids=ids, names=names, expire=K["E"], nf=K["NF"], rtype=rtype))
+def drv_cfg(K, nodes, place, ids, names, rtype="node", pk="small"):
+    return json.dumps(dict(nodes=nodes, place=place, ids=ids, names=names, expire=K["E"], nf=K["NF"], rtype=rtype, pk=pk))
 
 
 def get_ladder(ctx, binp):
@@ -129,7 +129,7 @@ def get_ladder(ctx, binp):
 
 class Plan:
     def __init__(self, name, ids, names, datas, nodes, place, jits, initdbs, adv, maxfail, maxops, ops, maxdown=1,
-                 tail=6, fault="error", simulate=None, depth=None, shards=6, e=40, nf=20, rtype="node"):
+                 tail=6, fault="error", simulate=None, depth=None, shards=6, e=40, nf=20, rtype="node", pk="small"):
         self.__dict__.update(locals())
 
 
@@ -142,7 +142,7 @@ def run_plan(ctx, binp, ladder, p):
         raise core.Infra("plan %s generated no behaviour" % p.name)
     path, n = ctx.write_cases(p.name + ".ndjson", cases)
     ctx.samples += core.sample_of(cases, 1)
-    env = dict(VERIF_C06_CFG=drv_cfg(K, p.nodes, p.place, p.ids, p.names, p.rtype), VERIF_C06_FAULT=p.fault)
+    env = dict(VERIF_C06_CFG=drv_cfg(K, p.nodes, p.place, p.ids, p.names, p.rtype, p.pk), VERIF_C06_FAULT=p.fault)
     ctx.notes.setdefault("plans", {})[p.name] = dict(cases=n, maxops=p.maxops, ops=p.ops, nodes=p.nodes, fault=p.fault,
                                                      adv=p.adv, tail=p.tail, simulate=p.simulate)
     return ctx.replay(PKG, OVERLAY, RUN, path, label=p.name, env=env, shards=p.shards, binp=binp, timeout=1500)
@@ -181,6 +181,11 @@ def plans_for(ctx):
                   rtype="cluster"))
     P.append(Plan("rclu-one", i1, n2, d, 1, one12, ["hi"], dbs, [1, 5], 3, 4, READS + WRITES + ["adv", "down", "up"],
                   maxdown=1, rtype="cluster", e=30, nf=10))
+    # primary keys that are integers above 2^53 / strings (decoded into `any` on the index path)
+    P.append(Plan("pk-big", i2, n2, d, 1, one2, ["hi"], dbs, [1], 1, 3 if q else 4, READS + WRITES + ["down", "up"],
+                  maxdown=1, pk="big", e=30, nf=10))
+    P.append(Plan("pk-str", i1, n2, d, 2, split, ["mid"], dbs, [1], 1, 3 if q else 4, READS + WRITES + ["down", "up"],
+                  maxdown=1, pk="str"))
     # the retry ladder over virtual time (rungs 1 s, 5 s, 60 s; tail long enough to see a repeat)
     P.append(Plan("ladder", i1, n1, d, 1, one1, ["mid"], dbs, [1, 5, 60], 3, 5 if q else 6, ["put", "down", "up", "adv"],
                   maxdown=2, tail=61))
@@ -355,5 +360,5 @@ def replay(ctx, rp):
     K = consts(p.ids, p.names, p.datas, list(range(1, p.nodes + 1)), p.place, ladder, p.jits, p.initdbs, p.adv, p.maxfail,
                e=p.e, nf=p.nf)
     path, _ = ctx.write_cases("replay.ndjson", [rp["case"]])
-    env = dict(VERIF_C06_CFG=drv_cfg(K, p.nodes, p.place, p.ids, p.names, p.rtype), VERIF_C06_FAULT=p.fault)
+    env = dict(VERIF_C06_CFG=drv_cfg(K, p.nodes, p.place, p.ids, p.names, p.rtype, p.pk), VERIF_C06_FAULT=p.fault)
     ctx.replay(PKG, OVERLAY, RUN, path, label=p.name, env=env, shards=1, binp=binp)
